@@ -4,6 +4,7 @@
 package main
 
 import (
+	"sync/atomic"
 	"crypto"
 	"crypto/dsa"
 	"crypto/ecdh"
@@ -384,6 +385,33 @@ func runCertPolicy(t *testing.T, cases []map[string]interface{}, ev *vEvents) {
 		out, cc := w.execCertPolicy(c)
 		ev.Emit(map[string]interface{}{"i": i, "case": cc, "out": out})
 	})
+	// many users at once: rows of two different users in the deployment with a $USERNAME extension template, run by several
+	// goroutines at the same time for a while (no per-world turn taking): every certificate is judged like any other row
+	if secs, _ := strconv.Atoi(os.Getenv("VERIF_STORM_SECS")); secs > 0 {
+		var storm []map[string]interface{}
+		for _, c := range cases {
+			u := vStr(vMap(c, "user"), "typed")
+			if vStr(c, "world") == "ext1" && vStr(c, "path") == "ssh" && vStr(c, "target") == "self" && vStr(c, "cred") == "cookie" &&
+				vStr(vMap(c, "key"), "id") == "p256" && (u == "alice" || u == "bob") {
+				storm = append(storm, c)
+			}
+		}
+		if len(storm) >= 2 {
+			w := worlds.get("ext1")
+			deadline := time.Now().Add(time.Duration(secs) * time.Second)
+			var n int64
+			base := len(cases)
+			vParallel(12, 12, func(_, g int) {
+				for time.Now().Before(deadline) {
+					c := storm[(g+int(atomic.LoadInt64(&n)))%len(storm)]
+					out, cc := w.execCertPolicy(c)
+					k := atomic.AddInt64(&n, 1)
+					cc["storm"] = true
+					ev.Emit(map[string]interface{}{"i": base + int(k) - 1, "case": cc, "out": out})
+				}
+			})
+		}
+	}
 	for _, w := range worlds.m {
 		w.Close()
 	}
